@@ -168,7 +168,7 @@ func parseList(json string, line *int) (List, int, error) {
 	for i := 0; i < len(json); i += size {
 
 		char, size = utf8.DecodeRuneInString(json[i:])
-		if size == 0 || char == utf8.RuneError {
+		if size == 0 || (char == utf8.RuneError && size == 1) {
 			return nil, 0, fmt.Errorf("not an UTF-8 encoding")
 		}
 
@@ -307,7 +307,7 @@ func parseObject(json string, line *int) (Object, int, error) {
 	for i := 0; i < len(json); i += size {
 
 		char, size = utf8.DecodeRuneInString(json[i:])
-		if size == 0 || char == utf8.RuneError {
+		if size == 0 || (char == utf8.RuneError && size == 1) {
 			return nil, 0, fmt.Errorf("not an UTF-8 encoding")
 		}
 
